@@ -18,3 +18,48 @@ Example C10_stages_present :
            "network.render_package"; "network.render_network"] = true /\
   written cli_steps = ["pkg_file_name"; "top_file_name"].
 Proof. vm_compute. auto. Qed.
+
+(* Part 2 (over the generator model, for EVERY input tree): what the model accepts is well formed.
+   Read contrapositively these are rejection theorems for the property's defect classes -- an input
+   with one of these defects makes run_yaml return Err, and Part 1 says an error leaves no file:
+   unknown field (network, protocol, endpoint, router, connection, address range), duplicate endpoint
+   or router name, subordinate endpoint without address range, invalid address range, range (or array
+   stride) beyond the address width, protocols disagreeing on the address width, unidirectional
+   connection, duplicate node name in the graph, link end on a node that does not exist, expanded
+   address ranges that overlap (C01_holds), a port index used twice on a router (place). *)
+From FV Require Import AddrRange Graph Desc Build Compile Routing Emit ModelBase BuildProofs ParseProofs ModelProofs.
+
+Definition C10_model_statement : Prop :=
+  (forall sp v n, run_yaml sp v = Ok n ->
+     exists d g, parse_desc v = Ok d /\ build d = Ok g /\
+       (* schema layer *)
+       NoDup (map ep_name (d_eps d)) /\ NoDup (map rt_name (d_rts d)) /\
+       (forall e, In e (d_eps d) -> ep_ok e) /\
+       (forall e rs, In e (d_eps d) -> In rs (ep_ranges e) ->
+          exists r, range_of_spec rs = Ok r /\ r_end r <= 2 ^ aw_of d /\
+            (forall b, ep_array e <> None -> ep_sbr e <> None -> r_base r = Some b ->
+                       b + r_size r * ep_num e <= 2 ^ aw_of d)) /\
+       (forall p q, In p (d_protos d) -> In q (d_protos d) -> p_addr p = p_addr q) /\
+       (* graph layer *)
+       NoDup (names g) /\ ginv g /\ ni_wf g) /\
+  (* unknown fields *)
+  (forall v d, parse_desc v = Ok d -> exists m, v = YMap m /\ forall k x, In (k, x) m ->
+     In k ["name"; "description"; "network_type"; "protocols"; "endpoints"; "routers"; "connections"; "graph"; "routing"]) /\
+  (forall v e, parse_ep v = Ok e -> exists m, v = YMap m /\ forall k x, In (k, x) m ->
+     In k ["name"; "description"; "array"; "num"; "addr_range"; "xy_id_offset"; "mgr_port_protocol"; "sbr_port_protocol"]) /\
+  (forall v r, parse_range v = Ok r -> exists m, v = YMap m /\ forall k x, In (k, x) m ->
+     In k ["start"; "end"; "size"; "base"; "idx"; "desc"]) /\
+  (forall v c m, parse_conn v = Ok c -> v = YMap m -> yget "bidirectional" m <> Some (YBool false)).
+
+Theorem C10_model_holds : C10_model_statement.
+Proof.
+  split; [|split; [exact parse_desc_keys|split; [exact parse_ep_keys|split; [exact parse_range_keys|]]]].
+  - intros sp v n H. unfold run_yaml in H. destruct (parse_desc v) as [d|] eqn:Hp; [|discriminate]. cbn [bind] in H.
+    destruct (run_inv _ _ _ H) as (g & c & ri & Hb & _).
+    destruct (parse_desc_ok _ _ Hp) as (A1 & A2 & A3 & A4 & A5 & _).
+    exists d, g. split; [reflexivity|]. split; [exact Hb|]. split; [exact A1|]. split; [exact A2|].
+    split; [exact A3|]. split; [exact A4|]. split; [exact A5|].
+    split; [exact (build_nodup d g Hb)|]. split; [exact (build_ginv d g Hb)|exact (build_ni_wf d g Hb)].
+  - intros v c m Hc Hv. exact (parse_conn_bidir v c Hc m Hv).
+Qed.
+Print Assumptions C10_model_holds.
